@@ -301,6 +301,58 @@ def leanchecker(modules):
     return rc == 0, (out + err)[-2000:]
 
 
+def regenerate_and_check(modules):
+    """Second tie (DESIGN §2.5): regenerate lean/Generated/<M>.lean from the CURRENT Python source with
+    harness/translate.py, build it (its tie theorems are `by rfl` against Model.*), audit them.
+    Serialised by a file lock because the generated file and its build output are shared.
+    returns (tie_theorems [(name, axioms)], broken | None)"""
+    import fcntl
+    import translate
+
+    gdir = LEAN_DIR / "Generated"
+    gdir.mkdir(exist_ok=True)
+    thms, broken = [], None
+    with open(gdir / ".lock", "w") as lockf:
+        fcntl.flock(lockf, fcntl.LOCK_EX)
+        try:
+            for m in modules:
+                f = gdir / f"{m}.lean"
+                try:
+                    src = translate.generate(REPO)
+                except Exception as e:
+                    broken = {"kind": "generated_tie", "module": m,
+                              "error": f"translator: {type(e).__name__}: {e}"}
+                    continue
+                if not f.exists() or f.read_text() != src:
+                    f.write_text(src)
+                ok, log = lake_build([f"Generated.{m}"])
+                if not ok:
+                    failed = sorted(set(re.findall(r"error: (\S+\.lean:\d+):\d+", log)))
+                    names = []
+                    lines = src.splitlines()
+                    for loc in failed:  # name the tie theorems that no longer check
+                        ln = int(loc.split(":")[1])
+                        for k in range(min(ln, len(lines)) - 1, -1, -1):
+                            mm = re.match(r"theorem (\S+)", lines[k])
+                            if mm:
+                                names.append(f"GeneratedTie.{mm.group(1)}")
+                                break
+                    broken = {"kind": "generated_tie", "module": m, "theorems": sorted(set(names)),
+                              "log_tail": log[-1500:]}
+                else:
+                    thms += audit("GeneratedTie", module=f"Generated.{m}")
+        finally:
+            if REPO.resolve() != Path("/repo").resolve():
+                # leave the committed (real-tree) version behind after a run against a scratch tree
+                for m in modules:
+                    try:
+                        (gdir / f"{m}.lean").write_text(translate.generate(Path("/repo")))
+                    except Exception:
+                        pass
+            fcntl.flock(lockf, fcntl.LOCK_UN)
+    return thms, broken
+
+
 def run_driver(pid, requests, timeout=3600):
     """send all requests (list of dicts) to the property's compiled model driver, return responses."""
     if not requests:
@@ -518,6 +570,13 @@ def run_check(chk: PropertyCheck, tier: str, seed: int, replay: str | None = Non
             return 2
     else:
         thms = audit(pid)
+    gen_mods = list(getattr(chk, "generated_modules", []) or [])
+    tie_thms = []
+    if gen_mods and not replay:
+        tie_thms, tie_broken = regenerate_and_check(gen_mods)
+        thms = thms + tie_thms
+        if tie_broken:
+            proof_broken.append(tie_broken)
     scan_hits = source_scan(pid) if ok_build else []
     bad_axioms = [(t, a) for t, a in thms if not set(a) <= ALLOWED_AXIOMS]
     obligations = len(thms)
@@ -687,7 +746,9 @@ def run_check(chk: PropertyCheck, tier: str, seed: int, replay: str | None = Non
                 payload = {
                     "property": pid, "seed": seed, "tier": tier, "kind": "proof", "input": None,
                     "broken": {"kind": "theorem", "details": proof_broken,
-                               "names": [t for t, a in bad_axioms] or [f"{pid}.* (build failed)"]},
+                               "names": [t for t, a in bad_axioms]
+                               or [n for b in proof_broken for n in b.get("theorems", [])]
+                               or [f"{pid}.* (build failed)"]},
                     "search": {"cases_tried": searched, "failing_input": None},
                 }
                 violations.append((write_replay(pid, payload), True))
@@ -718,6 +779,7 @@ def run_check(chk: PropertyCheck, tier: str, seed: int, replay: str | None = Non
                 *chk.trusted_extra,
             ],
             "theorems": [t for t, _ in thms],
+            "generated_tie_theorems": [t for t, _ in tie_thms],
             "axioms_used": sorted({a for _, ax in thms for a in ax}),
             "evaluations": len(evaluated),
             "distinct_nontrivial": len(distinct),
